@@ -320,7 +320,8 @@ pub fn finish(mut rep: Report, coverage_extra: serde_json::Value, assumptions: V
         }
         let path = replays.join(format!("{}-{}.json", rep.prop, n));
         let doc = json!({"property": rep.prop, "kind": v.kind, "message": v.msg, "signature": v.sig, "spec": spec, "history": v.history,
-            "how_to_replay": format!("./check replay {}", path.display())});
+            "how_to_replay": format!("./check replay {}", path.display()),
+            "plain_unit_test": rust_test(spec, &v.history)});
         std::fs::write(&path, serde_json::to_string_pretty(&doc).unwrap()).unwrap();
         // re-execute twice in fresh processes before believing it (crashes/hangs are replayed once)
         let verdict = confirm(&path, spec, v);
@@ -479,4 +480,68 @@ fn confirm(path: &Path, spec: &ShardSpec, v: &ViolRec) -> Confirm {
         }
     }
     Confirm::Reproduced
+}
+
+/// A plain `#[test]` body (public API only, no explorer) for single-collection histories.  Calls
+/// that have no one-line equivalent are left as comments; `./check replay` is the exact replay.
+pub fn rust_test(spec: &ShardSpec, history: &[String]) -> Option<String> {
+    use crate::op::{iter_arg_split, Op, OpK};
+    if !matches!(spec.engine.as_str(), "e1" | "e2") {
+        return None;
+    }
+    let set = spec.world == "set";
+    let (kt, mk) = match spec.ty.as_str() {
+        "u32" => ("u32", "k"),
+        "zst" => ("()", "()"),
+        _ => ("Box<u32>", "Box::new(k)"),
+    };
+    let mut s = String::new();
+    s.push_str("// Hasher: deterministic, the harness' kind/seed; any BuildHasher with these hash values reproduces it.\n");
+    s.push_str(&format!("// hasher kind = {}, seed = {}, initial capacity = {}\n", crate::hasher::H_NAMES[spec.hk as usize & 3], spec.seed, spec.cap0));
+    s.push_str("#[test]\nfn replay() {\n");
+    if set {
+        s.push_str(&format!("    let mut s: griddle::HashSet<{}, H> = griddle::HashSet::with_capacity_and_hasher({}, H::new());\n", kt, spec.cap0));
+    } else {
+        s.push_str(&format!("    let mut m: griddle::HashMap<{}, u32, H> = griddle::HashMap::with_capacity_and_hasher({}, H::new());\n", kt, spec.cap0));
+    }
+    let key = |k: u32| mk.replace('k', &k.to_string());
+    for h in history {
+        let op = Op::parse(h)?;
+        let k = key(op.key);
+        let line = match op.k {
+            OpK::Insert => format!("m.insert({}, /* next value */ 0);", k),
+            OpK::Remove => format!("m.remove(&{});", k),
+            OpK::RemoveEntry => format!("m.remove_entry(&{});", k),
+            OpK::Get => format!("let _ = m.get(&{});", k),
+            OpK::GetMut => format!("if let Some(v) = m.get_mut(&{}) {{ *v = (*v + 1) % 3; }}", k),
+            OpK::GetKeyValue => format!("let _ = m.get_key_value(&{});", k),
+            OpK::ContainsKey => format!("let _ = m.contains_key(&{});", k),
+            OpK::Clear => (if set { "s.clear();" } else { "m.clear();" }).to_string(),
+            OpK::Reserve => format!("{}.reserve({});", if set { "s" } else { "m" }, op.arg),
+            OpK::TryReserve => format!("let _ = {}.try_reserve({});", if set { "s" } else { "m" }, op.arg),
+            OpK::ShrinkTo => format!("{}.shrink_to({});", if set { "s" } else { "m" }, op.arg),
+            OpK::ShrinkToFit => format!("{}.shrink_to_fit();", if set { "s" } else { "m" }),
+            OpK::CloneReplace => (if set { "s = s.clone();" } else { "m = m.clone();" }).to_string(),
+            OpK::IterMutWrite => "for (_, v) in m.iter_mut() { *v = (*v + 1) % 3; }".to_string(),
+            OpK::ValuesMutWrite => "for v in m.values_mut() { *v = (*v + 1) % 3; }".to_string(),
+            OpK::Retain if op.arg & 0xFFFF == 0 => format!("{}.retain(|..| false);", if set { "s" } else { "m" }),
+            OpK::Retain if op.arg & 0xFFFF == 4 => (if set { "s.retain(|k| k % 2 == 0);" } else { "m.retain(|k, _| k % 2 == 0);" }).to_string(),
+            OpK::Drain if iter_arg_split(op.arg).1 == 0 => format!("{}.drain().for_each(drop);", if set { "s" } else { "m" }),
+            OpK::EntryChain => format!("// m.{}  on key {}", crate::chain::describe(op.arg, false).replacen("entry", &format!("entry({})", k), 1), op.key),
+            OpK::RawChain => format!("// m.{}  on key {}", crate::chain::describe(op.arg, true), op.key),
+            OpK::SInsert => format!("s.insert({});", k),
+            OpK::SRemove => format!("s.remove(&{});", k),
+            OpK::SReplace => format!("s.replace({});", k),
+            OpK::STake => format!("s.take(&{});", k),
+            OpK::SGet => format!("let _ = s.get(&{});", k),
+            OpK::SContains => format!("let _ = s.contains(&{});", k),
+            OpK::SGetOrInsert => format!("s.get_or_insert({});", k),
+            _ => format!("// {}   (no one-line equivalent: predicate / iterator prefix / probe resolved on the state)", h),
+        };
+        s.push_str("    ");
+        s.push_str(&line);
+        s.push('\n');
+    }
+    s.push_str("    // then: compare len(), iter() and get() of every key with a BTreeMap fed the same calls\n}\n");
+    Some(s)
 }
